@@ -61,6 +61,7 @@ type fixture struct {
 	dserv  ipld.DAGService
 	pinDS  ds.Batching // the pinner's datastore (possibly wrapped by the caller)
 	rawPin *ds.MapDatastore
+	extra  []string // names of extra leaves (observed in addition to cidNames)
 }
 
 func leaf(s string) *mdag.ProtoNode { return mdag.NodeWithData([]byte(s)) }
@@ -267,6 +268,39 @@ func (st *rawState) bothModes() map[string]bool {
 	for c, ms := range m {
 		if ms["direct"] && ms["recursive"] {
 			out[c] = true
+		}
+	}
+	return out
+}
+
+// addExtraLeaves stores n more leaf blocks X00.. (for configurations with many pin records).
+func (f *fixture) addExtraLeaves(n int) {
+	for i := 0; i < n; i++ {
+		name := fmt.Sprintf("X%02d", i)
+		nd := leaf("extra-" + name)
+		must(f.dserv.Add(context.Background(), nd))
+		f.nodes[name] = nd
+		c := nd.Cid()
+		f.cids[name] = c
+		f.byKey[c.KeyString()] = name
+		f.byStr[c.String()] = name
+		f.extra = append(f.extra, name)
+	}
+}
+
+// unindexedRecordKeys lists the datastore keys of pin records that have no entry in the cid index of their mode.
+func (st *rawState) unindexedRecordKeys() map[string]bool {
+	out := map[string]bool{}
+	for _, p := range st.Pins {
+		idx := map[string]string{"recursive": "cidRindex", "direct": "cidDindex"}[p.Mode]
+		found := false
+		for _, e := range st.idxByID[p.ID] {
+			if e == idx+"|"+p.Cid {
+				found = true
+			}
+		}
+		if !found {
+			out["/pins/pin/"+p.ID] = true
 		}
 	}
 	return out
